@@ -255,6 +255,56 @@ func c10Run(c *verifeng.Chooser, depth, nreq int) {
 			return nil, errors.New("unknown block")
 		},
 	})
+	if c.ChooseFree(2, "start-order") == 1 {
+		// Stop reaches the scanner before Start does (ChainService.Stop
+		// called while ChainService.Start is still busy, e.g. importing
+		// headers), then Start goes on: the scanner must end up stopped -
+		// Stop returns, and a request is either refused or its caller
+		// released - not running with nobody left to stop it.
+		c.Step("Stop is called before Start; then Start; then GetUtxo(%s)", c10pool[0].name)
+		st := verifbubble.Go("Stop", func() (any, error) { return nil, scanner.Stop() })
+		verifbubble.Wait()
+		if err := scanner.Start(); err != nil {
+			panic(verifeng.InfraError{Msg: err.Error()})
+		}
+		// Stop polls every 50 ms for the batch manager's exit
+		time.Sleep(time.Second)
+		verifbubble.Wait()
+		if !st.Done() {
+			c.Fail("C10", "C10:stop-blocks", "UtxoScanner.Stop, called before Start, has not returned a second after Start")
+			return
+		}
+		r := c10pool[0]
+		tk := verifbubble.Go("GetUtxo("+r.name+")", func() (any, error) {
+			req, err := scanner.Enqueue(&InputWithScript{OutPoint: ops[r.op], PkScript: c10script(r.script)}, r.birth, nil)
+			if err != nil {
+				return nil, err
+			}
+			return req.Result(nil)
+		})
+		for i := 0; i < 8 && !tk.Done(); i++ {
+			verifbubble.Wait()
+			if gate != nil {
+				g := gate
+				gate = nil
+				g.release <- nil
+				continue
+			}
+			time.Sleep(3 * time.Second)
+		}
+		verifbubble.Wait()
+		if !tk.Done() {
+			c.Fail("C10", "C10:caller-left-waiting-after-stop", "Stop had returned (it was called before Start, Start followed); a GetUtxo request was accepted afterwards and its caller is never answered")
+			// release the leaked batch manager for the clean-up
+			return
+		}
+		if tk.Err == nil {
+			c.Fail("C10", "C10:served-after-stop", "Stop had returned (it was called before Start, Start followed), yet a GetUtxo request made afterwards was scanned and answered: the scanner is running with nobody left to stop it")
+			return
+		}
+		c.Obs("stop-before-start: " + tk.Err.Error())
+		return
+	}
 	if err := scanner.Start(); err != nil {
 		panic(verifeng.InfraError{Msg: err.Error()})
 	}
@@ -637,6 +687,21 @@ func TestVFXC10(t *testing.T) {
 	e.MaxDev = 1
 	e.Run(c10Body(t, depth-3, nreq))
 	vfxSyncPre = false
+	if err := verifeng.AppendResult(&e.Res); err != nil {
+		t.Fatal(err)
+	}
+}
+
+// TestVFXC10SS is the C17 part of this harness: Stop reaching the scanner
+// before Start (and the plain start/stop), with no further stimuli.
+func TestVFXC10SS(t *testing.T) {
+	if rp := os.Getenv("VFX_REPLAY"); rp != "" {
+		TestVFXC10(t)
+		return
+	}
+	e := verifeng.FromEnv("C10-utxoscanner", fmt.Sprintf("depth=%d requests=%d pool=%d", 1, 1, len(c10pool)))
+	e.MaxViol = 12
+	e.Run(c10Body(t, 1, 1))
 	if err := verifeng.AppendResult(&e.Res); err != nil {
 		t.Fatal(err)
 	}
